@@ -13,6 +13,7 @@ package main
 //   may_setExecuteConfig   fields written by setExecuteConfig or anything it (transitively) calls
 //   may_run                fields written by executeAll or anything it (transitively) calls
 //   may_setVarByName       fields written by setVarByName (the Vars loop) or anything it calls
+//   refs_parseFmtTypes / refs_compileRegex   fields mentioned by the functions that fill formatCache / regexCache
 //   writes_elsewhere       every write in every other function (function name, write)
 //   other_writers          functions that write a field but are reachable from none of the above
 //   nil_tested             fields compared with nil somewhere in the package
@@ -46,6 +47,7 @@ type c14Func struct {
 	writes  []c14Write
 	calls   []string // interp methods / functions referenced, in order, deduplicated
 	methods [][2]string
+	refs    map[string]bool // every field of struct interp mentioned (read or written) in the body
 }
 
 type c14State struct {
@@ -315,6 +317,12 @@ func (st *c14State) collect(f *c14Func, interpMethods map[string]bool) {
 				}
 			}
 		case *ast.SelectorExpr:
+			if fld, ok := st.fieldRef(f, x); ok {
+				if f.refs == nil {
+					f.refs = map[string]bool{}
+				}
+				f.refs[fld] = true
+			}
 			// p.method (called or taken as a method value)
 			if f.isInterp(x.X) && interpMethods[x.Sel.Name] && !seenCall[x.Sel.Name] {
 				seenCall[x.Sel.Name] = true
@@ -641,6 +649,43 @@ func init() {
 			return "", fmt.Errorf("function setVarByName not found in package interp")
 		}
 		mayVars, _ := closure("setVarByName")
+		// fields mentioned by the functions that FILL the per-Interpreter caches (and what they call)
+		refsClosure := func(start string) ([]string, error) {
+			if st.funcs[start] == nil {
+				return nil, fmt.Errorf("function %s (cache filler) not found in package interp", start)
+			}
+			seen := map[string]bool{}
+			flds := map[string]bool{}
+			var go1 func(k string)
+			go1 = func(k string) {
+				if seen[k] || st.funcs[k] == nil {
+					return
+				}
+				seen[k] = true
+				for fl := range st.funcs[k].refs {
+					flds[fl] = true
+				}
+				for _, c := range st.funcs[k].calls {
+					go1(c)
+				}
+			}
+			go1(start)
+			var out []string
+			for _, fl := range st.order {
+				if flds[fl] {
+					out = append(out, fl)
+				}
+			}
+			return out, nil
+		}
+		refsFmt, err := refsClosure("parseFmtTypes")
+		if err != nil {
+			return "", err
+		}
+		refsRegex, err := refsClosure("compileRegex")
+		if err != nil {
+			return "", err
+		}
 
 		var sb strings.Builder
 		sb.WriteString("From Coq Require Import String List.\nImport ListNotations.\nOpen Scope string_scope.\n\n")
@@ -689,7 +734,10 @@ func init() {
 		}
 		fmt.Fprintf(&sb, "Definition may_setExecuteConfig : list string := %s.\n", strList(maySet))
 		fmt.Fprintf(&sb, "Definition may_run : list string := %s.\n", strList(mayRun))
-		fmt.Fprintf(&sb, "Definition may_setVarByName : list string := %s.\n\n", strList(mayVars))
+		fmt.Fprintf(&sb, "Definition may_setVarByName : list string := %s.\n", strList(mayVars))
+		fmt.Fprintf(&sb, "(* fields mentioned (read or written) by the cache fillers and everything they call *)\n")
+		fmt.Fprintf(&sb, "Definition refs_parseFmtTypes : list string := %s.\n", strList(refsFmt))
+		fmt.Fprintf(&sb, "Definition refs_compileRegex : list string := %s.\n\n", strList(refsRegex))
 		sb.WriteString("Definition writes_elsewhere : list (string * write) := [\n")
 		var rows []string
 		var others []string
